@@ -327,6 +327,7 @@ def check(ctx):
     _ps.check_decode_memos(ctx)
     from ..rules import indexspace as _ixg
     _ixg.check_global_row_ids(ctx, f'{GP}.get_all_discrete_x')
+    _ixg.check_fixed_table_keys(ctx)
 
 
 from ..selftest import V  # noqa: E402
